@@ -16,7 +16,12 @@ package model
 //@ event ErrorCauseCropped = ret rapi/model.(*ErrorCause).croppedJSON
 //@ const MaxErrorCauseSizeBytes == 65536
 // the cropped document is itself within the limit (escaping can inflate the strings that the crop cut by raw length)
+// C20 ("causes without any recognised field ... are dropped"): the crop can remove every exception and path of a cause that has no
+// message and no working directory; what is left is a cause without any recognised field, which is dropped like any other such
+// cause — a cropped document is handed on only after it was found valid
+//@ event CroppedCauseFoundValid = ret rapi/model.(*ErrorCause).isValid when r0
 //@ func (*ErrorCause).croppedJSON
+//@   ensures [C20: a-cause-cropped-to-nothing-is-dropped] r0 != nil ==> delta(CroppedCauseFoundValid) >= 1
 //@   ensures [the-cropped-cause-is-within-the-limit] len(r0) <= MaxErrorCauseSizeBytes
 // C20 ("causes ... with invalid JSON are dropped"): the cause is parsed as one whole JSON document (json.Unmarshal rejects
 // trailing bytes; a streaming decoder would accept the first value and ignore what follows)
